@@ -26,6 +26,10 @@ Model/Num.v equal the interpretation of the generated bodies.  Anything outside 
 (exit status 3; the previous file is NOT rewritten).  The one-line helpers the interpreter takes as primitives (peek, peek_or_null,
 eat_char, next_char, error, peek_error) and the `tri!` macro are pinned by exact (whitespace-squeezed) text.
 
+The parser class `P` is shared with tools/translate_cursor.py (second family: the buffer-less cursor functions), which switches on the
+extended grammar (`ext`): calls without `buf`, `if let`, `for x in ident`, `if COND {..} [else ..]`, `let x = match ..`, Ok(true|false),
+`other` / `P | Q` patterns.  For this file's family the extended forms stay outside the subset.
+
 Usage: translate_scan.py [--repo /repo] [--out <file>]
 """
 import re, sys, os, argparse
@@ -43,6 +47,12 @@ SIGS = {
     'scan_integer128': ('&mut self, buf: &mut String', None, '()'),
 }
 FNS = list(SIGS)
+
+class Family:
+    """what the parser needs to know about a family of functions: name -> (char/slice/bool parameter or None, its kind, return payload)"""
+    def __init__(self, sigs, buf, ext):
+        self.sigs, self.buf, self.ext = sigs, buf, ext
+SCAN_FAMILY = Family({f: (SIGS[f][1], 'char' if SIGS[f][1] else None, SIGS[f][2]) for f in SIGS}, buf=True, ext=False)
 
 PINNED = {   # helpers the interpreter (Model/ScanAst.v) maps onto the cursor primitives of Model/Read.v
     'peek': ('pub(crate) fn peek(&mut self) -> Result<Option<u8>>', '{ self.read.peek() }'),
@@ -64,7 +74,7 @@ ECODES = ['EofWhileParsingList', 'EofWhileParsingObject', 'EofWhileParsingString
           'KeyMustBeAString', 'ExpectedNumericKey', 'FloatKeyMustBeFinite', 'LoneLeadingSurrogateInHexEscape', 'TrailingComma',
           'TrailingCharacters', 'UnexpectedEndOfHexEscape', 'RecursionLimitExceeded']
 
-TOKEN = re.compile(r"\s*(b'(?:\\x[0-9a-fA-F]{2}|\\.|[^\\'])'|'(?:\\x[0-9a-fA-F]{2}|\\.|[^\\'])'|[A-Za-z_][A-Za-z0-9_]*|\.\.=|=>|::|[@|(){},;!=.])")
+TOKEN = re.compile(r"\s*(b'(?:\\x[0-9a-fA-F]{2}|\\.|[^\\'])'|'(?:\\x[0-9a-fA-F]{2}|\\.|[^\\'])'|[A-Za-z_][A-Za-z0-9_]*|\.\.=|=>|::|==|!=|[@|(){},;!=.*])")
 ESC = {'n': 10, 't': 9, 'r': 13, '\\': 92, '"': 34, '0': 0, "'": 39}
 
 def tokenize(s):
@@ -99,9 +109,13 @@ KEYWORDS = {'_', 'self', 'let', 'mut', 'if', 'else', 'match', 'while', 'loop', '
 
 class P:
     """recursive descent over the token list of one function body"""
-    def __init__(self, toks, fn):
+    def __init__(self, toks, fn, fam=None):
         self.t, self.i, self.fn = toks, 0, fn
-        self.ret = SIGS[fn][2]
+        self.fam = fam or SCAN_FAMILY
+        self.sigs, self.buf, self.ext = self.fam.sigs, self.fam.buf, self.fam.ext
+        self.ret = self.sigs[fn][2]
+    def is_call(self):
+        return self.at('self', '.') and bool(self.t[self.i + 2:self.i + 3]) and self.t[self.i + 2] in self.sigs and self.t[self.i + 3:self.i + 4] == ['(']
     def at(self, *lits):
         return self.t[self.i:self.i + len(lits)] == list(lits)
     def eat(self, *lits):
@@ -164,6 +178,15 @@ class P:
                 return ('any',)
             x, p = self.bound_bp(scope)
             return ('byte', x, p)
+        p = self.opt_atom(scope)
+        while self.ext and self.eat('|'):
+            q = self.opt_atom(scope)
+            for r in (p, q):
+                if r[0] == 'bindany' or (r[0] == 'some' and r[1] is not None):
+                    raise Broken('binder inside an or-pattern')
+            p = ('alt', p, q)
+        return p
+    def opt_atom(self, scope):
         if self.eat('_'):
             return ('any',)
         if self.eat('None'):
@@ -172,6 +195,10 @@ class P:
             x, p = self.bound_bp(scope)
             self.need(')')
             return ('some', x, p)
+        if self.ext and self.is_ident():
+            x = self.ident()
+            scope[x] = 'opt'
+            return ('bindany', x)
         raise Broken('Option pattern outside the subset at `%s`' % self.here())
 
     # ---- scrutinees / result expressions ---------------------------------------------
@@ -180,25 +207,41 @@ class P:
         if self.eats('self.peek_or_null()'): r = (('peek_or_null',), 'u8')
         elif self.eats('self.peek()'): r = (('peek',), 'opt')
         elif self.eats('self.next_char()'): r = (('next',), 'opt')
-        elif self.at('self', '.') and self.t[self.i + 2:self.i + 3] and self.t[self.i + 2] in SIGS:
+        elif self.is_call():
             f = self.t[self.i + 2]
             self.i += 3
-            self.needs('(buf)')
-            if SIGS[f][1] is not None or SIGS[f][2] != 'u8':
-                raise Broken('tri!(self.%s(buf)) as a scrutinee: %s does not return Result<u8> from (buf)' % (f, f))
-            r = (('call', f), 'u8')
+            self.needs('(buf)' if self.buf else '()')
+            if self.sigs[f][0] is not None or self.sigs[f][2] not in ('u8', 'Option<u8>'):
+                raise Broken('tri!(self.%s(..)) as a scrutinee: %s does not return Result<u8> / Result<Option<u8>> without further arguments' % (f, f))
+            r = (('call', f), 'u8' if self.sigs[f][2] == 'u8' else 'opt')
         else:
             raise Broken('scrutinee outside the subset at `%s`' % self.here())
         self.need(')')
         return r
     def starts_rexpr(self):
-        return self.at('Ok', '(') or self.at('Err', '(') or (self.at('self', '.') and self.t[self.i + 2:self.i + 3] and self.t[self.i + 2] in SIGS)
+        return self.at('Ok', '(') or self.at('Err', '(') or self.is_call() or (self.ext and self.at('let', 'position', '='))
     def rexpr(self, scope):
         if self.eats('Ok(())'):
             if self.ret != '()': raise Broken('Ok(()) in a function returning Result<%s>' % self.ret)
             return ('okunit',)
+        if self.ext and (self.at('Ok', '(', 'true', ')') or self.at('Ok', '(', 'false', ')')):
+            if self.ret != 'bool': raise Broken('Ok(bool) in a function returning Result<%s>' % self.ret)
+            self.i += 4
+            return ('okbool', self.t[self.i - 2] == 'true')
+        if self.ext and self.eats('let position = self.read.peek_position();'):
+            # the body of peek_error (pinned), written out in place: position of the peeked byte + Error::syntax
+            self.needs('Err(Error::syntax(ErrorCode::')
+            c = self.t[self.i]; self.i += 1
+            if c not in ECODES:
+                raise Broken('unknown ErrorCode::%s' % c)
+            self.needs(', position.line, position.column')
+            self.eat(',')
+            self.need(')', ')')
+            return ('err', True, c)
         if self.eat('Ok', '('):
             x = self.ident(); self.need(')')
+            if self.ext and scope.get(x) == 'opt' and self.ret == 'Option<u8>':
+                return ('okvar', x)
             if scope.get(x) != 'u8' or self.ret != 'u8':
                 raise Broken('Ok(%s): not a u8 binder in a function returning Result<u8>' % x)
             return ('okvar', x)
@@ -213,12 +256,12 @@ class P:
                 raise Broken('unknown ErrorCode::%s' % c)
             self.need(')', ')')
             return ('err', peeked, c)
-        if self.at('self', '.') and self.t[self.i + 2:self.i + 3] and self.t[self.i + 2] in SIGS:
+        if self.is_call():
             f = self.t[self.i + 2]
             self.i += 3
             self.need('(')
             arg = None
-            if not self.at('buf'):
+            if self.buf and not self.at('buf'):
                 x = self.ident()
                 if self.eat('as', 'char'):
                     if scope.get(x) != 'u8': raise Broken('`%s as char`: %s is not a u8 binder' % (x, x))
@@ -226,11 +269,13 @@ class P:
                     raise Broken('argument %s of self.%s is not a char' % (x, f))
                 self.need(',')
                 arg = x
-            self.need('buf', ')')
-            if (arg is None) != (SIGS[f][1] is None):
+            if self.buf:
+                self.need('buf')
+            self.need(')')
+            if (arg is None) != (self.sigs[f][0] is None):
                 raise Broken('self.%s called with the wrong number of arguments' % f)
-            if SIGS[f][2] != self.ret:
-                raise Broken('self.%s(..) returns Result<%s>, the enclosing function Result<%s>' % (f, SIGS[f][2], self.ret))
+            if self.sigs[f][2] != self.ret:
+                raise Broken('self.%s(..) returns Result<%s>, the enclosing function Result<%s>' % (f, self.sigs[f][2], self.ret))
             return ('call', f, arg)
         raise Broken('Result expression outside the subset at `%s`' % self.here())
 
@@ -259,6 +304,8 @@ class P:
                     if not tail:
                         raise Broken('Result-valued arm `%s` outside tail position' % self.here())
                     body = [('ret', self.rexpr(sc))]
+                elif self.ext and self.eats('self.eat_char()'):
+                    body = [('eat',)]
                 else:
                     raise Broken('match arm outside the subset at `%s`' % self.here())
                 if not self.at('}'):
@@ -267,6 +314,70 @@ class P:
         if not out:
             raise Broken('match without arms')
         return out
+    def let_pattern(self, scope):
+        """PAT = tri!(SCRUT)   of a while-let / if-let: (pattern, scrutinee, scope with the binders)"""
+        sc2 = dict(scope)
+        # the pattern is followed by `=`; patterns never contain `=`
+        j = self.i
+        while j < len(self.t) and self.t[j] != '=': j += 1
+        save = self.i
+        self.i = j
+        self.need('=')
+        sc, kind = self.scrut()
+        after = self.i
+        self.i = save
+        p = self.pat(kind, sc2)
+        if self.i != j: raise Broken('let pattern outside the subset at `%s`' % self.here())
+        self.i = after
+        return p, sc, sc2
+    def cond(self, scope):
+        x = self.ident()
+        if self.eat('=='):
+            if scope.get(x) != 'u8' or not (self.i < len(self.t) and self.t[self.i].startswith("b'")):
+                raise Broken('condition `%s == ..` is not <u8 variable> == <byte literal>' % x)
+            v = lit_value(self.t[self.i]); self.i += 1
+            return ('eqlit', x, v)
+        if self.eat('!=', '*'):
+            y = self.ident()
+            if scope.get(x) != 'u8' or scope.get(y) != 'ref_u8':
+                raise Broken('condition `%s != *%s` is not <u8 variable> != *<loop variable>' % (x, y))
+            return ('nevar', x, y)
+        if scope.get(x) != 'bool': raise Broken('condition `%s` is not a bool variable' % x)
+        return ('var', x)
+    def skip_block(self, j):
+        """self.t[j] == '{': index after the matching '}'"""
+        if self.t[j:j + 1] != ['{']: raise Broken('`{` expected at `%s`' % ' '.join(self.t[j:j + 8]))
+        depth = 0
+        while True:
+            if j >= len(self.t): raise Broken('unbalanced braces')
+            depth += {'{': 1, '}': -1}.get(self.t[j], 0)
+            j += 1
+            if depth == 0: return j
+    def if_chain(self, tail, scope):
+        """if COND { .. } [else if COND { .. }]* [else { .. }]  ->  (statement, it stands in tail position)
+        Only a chain with a final `else` has a value; without one it is a unit statement."""
+        j, final_else = self.i, False
+        while True:
+            while self.t[j:j + 1] != ['{']:
+                if j >= len(self.t): raise Broken('unbalanced if')
+                j += 1
+            j = self.skip_block(j)
+            if self.t[j:j + 1] != ['else']: break
+            j += 1
+            if self.t[j:j + 1] == ['if']: continue
+            j = self.skip_block(j)
+            final_else = True
+            break
+        is_tail = tail and final_else and self.t[j:j + 1] == ['}']
+        return self.if_parse(is_tail, scope), is_tail
+    def if_parse(self, is_tail, scope):
+        self.need('if')
+        c = self.cond(scope)
+        a = self.block(is_tail, scope)
+        if self.eat('else'):
+            b = [self.if_parse(is_tail, scope)] if self.at('if') else self.block(is_tail, scope)
+            return ('ifelse', c, a, b)
+        return ('if', c, a)
     def items(self, tail, scope):
         out, done = [], False
         while not self.at('}'):
@@ -299,6 +410,45 @@ class P:
                 v = self.eat('true') or (self.need('false') or False)
                 self.need(';')
                 out.append(('setbool', x, v)); continue
+            if self.ext and self.at('if', 'let'):
+                self.i += 2
+                p, sc, sc2 = self.let_pattern(scope)
+                body = self.block(False, sc2)
+                if self.at('else'): raise Broken('if let .. else')
+                out.append(('iflet', p, sc, body)); continue
+            if self.ext and self.eat('for'):
+                x = self.ident(); self.need('in'); xs = self.ident()
+                if scope.get(xs) != 'slice': raise Broken('for %s in %s: %s is not the &[u8] parameter' % (x, xs, xs))
+                sc2 = dict(scope); sc2[x] = 'ref_u8'
+                out.append(('for', x, xs, self.block(False, sc2))); continue
+            if self.ext and self.at('let') and self.is_ident(1) and self.t[self.i + 2:self.i + 4] == ['=', 'match']:
+                self.i += 1
+                x = self.ident(); self.need('=', 'match')
+                sc, kind = self.scrut()
+                self.need('{')
+                arms = []
+                while not self.at('}'):
+                    sc2 = dict(scope)
+                    p = self.pat(kind, sc2)
+                    self.need('=>')
+                    if self.at('{'):
+                        body = self.block(False, sc2)
+                        if not body or body[-1][0] != 'ret':
+                            raise Broken('block arm of `let %s = match` does not end in a return' % x)
+                        arms.append((p, ('diverge', body)))
+                        self.eat(',')
+                    else:
+                        y = self.ident()
+                        if sc2.get(y) != 'u8': raise Broken('value arm `%s` of `let %s = match` is not a u8 binder' % (y, x))
+                        arms.append((p, ('var', y)))
+                        if not self.at('}'): self.need(',')
+                self.need('}', ';')
+                scope[x] = 'u8'
+                out.append(('letmatch', x, sc, arms)); continue
+            if self.ext and self.at('if') and not self.at('if', '!'):
+                st, is_tail = self.if_chain(tail, scope)
+                out.append(st); done = is_tail
+                continue
             if self.eat('if', '!'):
                 x = self.ident()
                 if scope.get(x) != 'bool': raise Broken('if !%s: not a bool variable' % x)
@@ -321,19 +471,7 @@ class P:
                 done = is_tail
                 continue
             if self.eat('while', 'let'):
-                sc2 = dict(scope)
-                # the pattern is followed by `=`; patterns never contain `=`
-                j = self.i
-                while j < len(self.t) and self.t[j] != '=': j += 1
-                save = self.i
-                self.i = j
-                self.need('=')
-                sc, kind = self.scrut()
-                after = self.i
-                self.i = save
-                p = self.pat(kind, sc2)
-                if self.i != j: raise Broken('while-let pattern outside the subset at `%s`' % self.here())
-                self.i = after
+                p, sc, sc2 = self.let_pattern(scope)
                 body = self.block(False, sc2)
                 out.append(('while', p, sc, body)); continue
             if self.eat('loop'):
@@ -351,11 +489,12 @@ class P:
             raise Broken('item outside the subset: `%s`' % self.here())
         return out
 
-def parse_body(fn, body):
-    p = P(tokenize(body), fn)
+def parse_body(fn, body, fam=None, toks=None):
+    fam = fam or SCAN_FAMILY
+    p = P(toks if toks is not None else tokenize(body), fn, fam)
     scope = {}
-    if SIGS[fn][1]:
-        scope[SIGS[fn][1]] = 'char'
+    if fam.sigs[fn][0]:
+        scope[fam.sigs[fn][0]] = fam.sigs[fn][1]
     ss = p.block(True, scope)
     if p.i != len(p.t):
         raise Broken('trailing text after body')
@@ -376,6 +515,8 @@ def coq_pat(p):
     k = p[0]
     if k == 'any': return 'PAny'
     if k == 'none': return 'PNone'
+    if k == 'bindany': return '(PBindAny %s)' % q(p[1])
+    if k == 'alt': return '(PAlt %s %s)' % (coq_pat(p[1]), coq_pat(p[2]))
     return '(%s %s %s)' % ('PByte' if k == 'byte' else 'PSome', opt(p[1]), coq_bp(p[2]))
 def coq_scrut(s):
     return {'peek_or_null': 'ScPeekOrNull', 'peek': 'ScPeek', 'next': 'ScNext'}.get(s[0]) or '(ScCall %s)' % q(s[1])
@@ -384,6 +525,7 @@ def coq_rexpr(r):
     if k == 'okunit': return 'ROkUnit'
     if k == 'okvar': return '(ROkVar %s)' % q(r[1])
     if k == 'err': return '(RErr %s %s)' % ('true' if r[1] else 'false', r[2])
+    if k == 'okbool': return '(ROkBool %s)' % ('true' if r[1] else 'false')
     return '(RCall %s %s)' % (q(r[1]), opt(r[2]))
 def coq_stmt(s, ind):
     k = s[0]
@@ -396,11 +538,24 @@ def coq_stmt(s, ind):
     if k == 'ret': return 'SRet %s' % coq_rexpr(s[1])
     if k == 'loop': return 'SLoop %s' % coq_block(s[1], ind + 2)
     if k == 'while': return 'SWhileLet %s %s %s' % (coq_pat(s[1]), coq_scrut(s[2]), coq_block(s[3], ind + 2))
+    if k == 'iflet': return 'SIfLet %s %s %s' % (coq_pat(s[1]), coq_scrut(s[2]), coq_block(s[3], ind + 2))
+    if k == 'for': return 'SFor %s %s %s' % (q(s[1]), q(s[2]), coq_block(s[3], ind + 2))
+    if k == 'if': return 'SIf %s %s' % (coq_cond(s[1]), coq_block(s[2], ind + 2))
+    if k == 'ifelse': return 'SIfElse %s %s %s' % (coq_cond(s[1]), coq_block(s[2], ind + 2), coq_block(s[3], ind + 2))
+    if k == 'letmatch':
+        pad = ' ' * (ind + 2)
+        arms = (';\n' + pad).join('(%s, %s)' % (coq_pat(p), 'AVar %s' % q(a[1]) if a[0] == 'var' else 'ADiverge %s' % coq_block(a[1], ind + 4))
+                                   for p, a in s[3])
+        return 'SLetMatch %s %s [\n%s%s]' % (q(s[1]), coq_scrut(s[2]), pad, arms)
     if k == 'match':
         pad = ' ' * (ind + 2)
         arms = (';\n' + pad).join('(%s, %s)' % (coq_pat(p), coq_block(b, ind + 4)) for p, b in s[2])
         return 'SMatch %s [\n%s%s]' % (coq_scrut(s[1]), pad, arms)
     raise Broken('internal: ' + k)
+def coq_cond(c):
+    if c[0] == 'eqlit': return '(CEqLit %s %d)' % (q(c[1]), c[2])
+    if c[0] == 'nevar': return '(CNeVar %s %s)' % (q(c[1]), q(c[2]))
+    return '(CVar %s)' % q(c[1])
 def coq_block(ss, ind):
     if all(s[0] in ('eat', 'pushlit', 'pushvar', 'letbool', 'setbool', 'ret') for s in ss):
         return '[' + '; '.join(coq_stmt(s, ind) for s in ss) + ']'
@@ -409,7 +564,7 @@ def coq_block(ss, ind):
 
 def fn_source(src, fn):
     """(squeezed parameter list, return payload, squeezed comment-free body, attribute line) of the unique `fn <fn>(`"""
-    ms = list(re.finditer(r'^([ \t]*#\[[^\n]*\]\n)?[ \t]*(?:pub(?:\(crate\))? )?fn %s\s*\(' % fn, src, re.M))
+    ms = list(re.finditer(r'^([ \t]*#\[[^\n]*\]\n)?[ \t]*(?:pub(?:\(crate\))? )?fn %s\s*(?:<[^(]*>)?\(' % fn, src, re.M))
     if len(ms) != 1:
         raise Broken('expected exactly one `fn %s(`, found %d' % (fn, len(ms)))
     m = ms[0]
@@ -437,7 +592,12 @@ def translate(repo):
             bodies[fn] = parse_body(fn, body)
         except (Broken, ValueError, IndexError) as e:
             broken.append(('scan:' + fn, str(e)))
-    # pinned primitives
+    broken += check_pinned(repo, src)
+    return bodies, broken
+
+def check_pinned(repo, src, tag='scan'):
+    """the primitives of the interpreter: exact bodies of the one-line helpers of de.rs and of the tri! macro of lib.rs"""
+    broken = []
     for name, (header, want) in PINNED.items():
         try:
             ms = [m for m in re.finditer(r'^[ \t]*' + re.escape(header) + r'\s*\{', src, re.M)]
@@ -447,7 +607,7 @@ def translate(repo):
             if got != want:
                 raise Broken('body is `%s`, the interpreter assumes `%s`' % (got, want))
         except (Broken, ValueError, IndexError) as e:
-            broken.append(('scan:pinned:' + name, str(e)))
+            broken.append((tag + ':pinned:' + name, str(e)))
     try:
         lib = open(os.path.join(repo, 'src', 'lib.rs'), encoding='utf-8').read()
         lib = '\n'.join('' if l.lstrip().startswith('//') else l for l in lib.split('\n'))
@@ -458,8 +618,8 @@ def translate(repo):
         if got != TRI:
             raise Broken('macro is `%s`, the interpreter assumes `%s`' % (got, TRI))
     except (Broken, ValueError, IndexError, OSError) as e:
-        broken.append(('scan:pinned:tri!', str(e)))
-    return bodies, broken
+        broken.append((tag + ':pinned:tri!', str(e)))
+    return broken
 
 def emit(bodies):
     L = ['(* Gen/ScanTables.v — GENERATED by tools/translate_scan.py from /repo/src/de.rs on every run. Do not edit.',
